@@ -111,3 +111,36 @@ def gen_walk_generated(rng, tier):
         data = pe.build()
         cases.append(walk_case(rng, data))
     return cases
+
+
+def gen_align_stress(rng, tier):
+    """C01: typed reads of every width at every residue, on buffers placed at 4, 8 and 12 mod 16
+    (file and mapped views): a check made on the rva instead of the address, or on the address where
+    the bytes would be mapped instead of where they are stored, hands out a misaligned reference."""
+    cases = []
+    n = 12 if tier == "quick" else 300
+    for _ in range(n):
+        pe = simple_pe(rng, nsec=rng.choice([1, 2]))
+        # file offsets that are NOT congruent to the virtual addresses modulo 8
+        for s in pe.sections:
+            if s.rs and rng.random() < 0.5:
+                s.prd += rng.choice([2, 4, 6])
+        gen_img.plant(rng, pe)
+        data = pe.build()
+        view = gen_img.load_view(pe, data)
+        for buf, k in ((data, "f%d" % pe.bits), (view, "v%d" % pe.bits)):
+            if buf is None:
+                continue
+            for al in (4, 8, 12, 0):
+                case = [gen_img.img_line(rng, buf, al, rng.choice("se")), "from_bytes " + k]
+                for s in pe.sections[:2]:
+                    for off in range(0, 16):
+                        r = s.va + off
+                        for t in ("u16", "u32", "u64"):
+                            case.append("derva %s %s 0x%x" % (k, t, r))
+                        case.append("derva_slice %s u64 0x%x 1" % (k, r))
+                        case.append("derva_slice_s %s u32 0x%x 0" % (k, r))
+                        case.append("slice %s 0x%x 8 8" % (k, r))
+                        case.append("deref %s u64 0x%x" % (k, (pe.image_base + r) & ((1 << pe.bits) - 1)))
+                cases.append(case)
+    return cases
